@@ -16,7 +16,7 @@ BUDGET = {'quick': 3000, 'thorough': 100000}
 CAP_S = {'quick': 150, 'thorough': 3000}
 RULE = ('case = (hint from the Iterable/Iterator/Generator/Container/Reversible/Collection/Sequence/set/deque/Mapping/dict/defaultdict/'
         'ChainMap families, optionally wrapped in Optional/Union/fixed tuple/list, object kind chosen independently of the hint among '
-        'one-shot iterators with a logged __next__, generators, non-collection iterables, defaultdicts with a counting factory, ChainMaps over '
+        'one-shot iterators with a logged __next__ (plain, with __len__ only, with __contains__ only), generators, non-collection iterables, defaultdicts with a counting factory, ChainMaps over '
         'them, and list/tuple/set/deque/dict subclasses and ABC-only containers that log every method call; items conforming or violating; '
         'draw). After each of the six entry points: no mutator was called, no iterator advanced (generator still GEN_CREATED, next item is '
         'the first), default_factory never invoked, length and a deep snapshot of contents unchanged, every logged method is in the read-only '
@@ -30,14 +30,14 @@ ASSUMPTIONS = [
 ITEM = {'int': ['cls', 'int'], 'str': ['cls', 'str']}
 HINT_FAMS = ['Iterable', 'TIterable', 'Iterator', 'Generator', 'Container', 'Reversible', 'Collection', 'Sequence', 'list', 'set',
              'deque', 'Mapping', 'MutableMapping', 'dict', 'defaultdict', 'ChainMap', 'OrderedDict', 'tupv']
-OBJ_KINDS = ['SpyIterator', 'generator', 'listiter', 'SpyIterable', 'SpyList', 'SpyTuple', 'SpySet', 'SpyFrozenSet', 'SpyDeque',
+OBJ_KINDS = ['SpyIterator', 'SpySizedIterator', 'SpyContainerIterator', 'generator', 'listiter', 'SpyIterable', 'SpyList', 'SpyTuple', 'SpySet', 'SpyFrozenSet', 'SpyDeque',
              'SpyColl', 'SpySeq', 'SpyAbstractSet', 'SpyDict', 'SpyOrderedDict', 'SpyDefaultDict', 'SpyMap', 'ChainMap',
              'plain-defaultdict']
 NATURAL = {
-    'Iterable': ['SpyIterator', 'generator', 'SpyIterable', 'SpyList', 'SpySet', 'SpyDict', 'SpyColl', 'listiter', 'ChainMap'],
-    'TIterable': ['SpyIterator', 'generator', 'SpyIterable', 'SpyTuple', 'SpyDeque', 'SpyDefaultDict'],
-    'Iterator': ['SpyIterator', 'generator', 'listiter'], 'Generator': ['generator'],
-    'Container': ['SpyList', 'SpySet', 'SpyColl', 'SpyDict'], 'Reversible': ['SpyList', 'SpyDeque', 'SpyTuple', 'SpyDict', 'SpySeq'],
+    'Iterable': ['SpyIterator', 'SpySizedIterator', 'SpyContainerIterator', 'generator', 'SpyIterable', 'SpyList', 'SpySet', 'SpyDict', 'SpyColl', 'listiter', 'ChainMap'],
+    'TIterable': ['SpyIterator', 'SpySizedIterator', 'SpyContainerIterator', 'generator', 'SpyIterable', 'SpyTuple', 'SpyDeque', 'SpyDefaultDict'],
+    'Iterator': ['SpyIterator', 'SpySizedIterator', 'SpyContainerIterator', 'generator', 'listiter'], 'Generator': ['generator'],
+    'Container': ['SpyList', 'SpySet', 'SpyColl', 'SpyDict', 'SpyContainerIterator'], 'Reversible': ['SpyList', 'SpyDeque', 'SpyTuple', 'SpyDict', 'SpySeq'],
     'Collection': ['SpyList', 'SpySet', 'SpyColl', 'SpyDeque', 'SpyDict', 'SpySeq', 'SpyDefaultDict', 'ChainMap'],
     'Sequence': ['SpyList', 'SpyTuple', 'SpySeq', 'SpyDeque'], 'list': ['SpyList'], 'set': ['SpySet'], 'deque': ['SpyDeque'],
     'Mapping': ['SpyDict', 'SpyMap', 'SpyDefaultDict', 'ChainMap', 'plain-defaultdict'], 'MutableMapping': ['SpyDict', 'SpyDefaultDict', 'ChainMap'],
@@ -109,8 +109,8 @@ def build_obj(kind, item, n, bad):
     pairs = [(j, leaf(j)) for j in range(n)]
     spies.ACTIVE[0] = False
     try:
-        if kind == 'SpyIterator':
-            return spies.SpyIterator(items)
+        if kind in ('SpyIterator', 'SpySizedIterator', 'SpyContainerIterator'):
+            return getattr(spies, kind)(items)
         if kind == 'generator':
             return _gen(items)
         if kind == 'listiter':
@@ -144,7 +144,7 @@ def snapshot(kind, x):
     """Deep-ish snapshot of the contents without going through the logged methods."""
     spies.ACTIVE[0] = False
     try:
-        if kind in ('SpyIterator',):
+        if kind in ('SpyIterator', 'SpySizedIterator', 'SpyContainerIterator'):
             return ('consumed', x.consumed)
         if kind == 'generator':
             return ('genstate', inspect.getgeneratorstate(x), len(GEN_LOG))
@@ -172,7 +172,7 @@ def snapshot(kind, x):
 READ_ONLY = {'__len__', '__iter__', 'iterator.__next__', '__getitem__', 'keys', 'values', 'items', 'get', '__contains__',
              '__reversed__', '__repr__', 'keys.__iter__', 'values.__iter__', 'items.__iter__', 'keys.__contains__',
              'values.__contains__', 'items.__contains__'}
-NON_COLLECTIONS = {'SpyIterator', 'SpyIterable'}
+NON_COLLECTIONS = {'SpyIterator', 'SpyIterable', 'SpySizedIterator', 'SpyContainerIterator'}
 
 
 @st.composite
@@ -270,6 +270,6 @@ def run_case(case):
             except StopIteration:
                 if case['n']:
                     fail('consumed:generator', '%s left an exhausted generator' % ep)
-    nontriv = kind in ('SpyIterator', 'generator', 'listiter', 'SpyIterable', 'SpyDefaultDict', 'plain-defaultdict', 'ChainMap') or case['n'] >= 1
+    nontriv = kind in ('SpyIterator', 'SpySizedIterator', 'SpyContainerIterator', 'generator', 'listiter', 'SpyIterable', 'SpyDefaultDict', 'plain-defaultdict', 'ChainMap') or case['n'] >= 1
     return {'fails': fails, 'nontrivial': nontriv, 'evals': evals,
             'classes': ['kind:' + kind, 'fam:' + case['fam'], 'wrap:' + case['wrap'], 'bad:' + case['bad']]}
